@@ -1,9 +1,113 @@
 import Driver.Util
-open Lean
+import Torf.Model.Pipeline
+open Lean Torf.Pipeline
 namespace Driver.C03
 
-/-- ops of property C03: `c03.<name>` -/
-def handle (op : String) (_j : Json) : Except String Json :=
-  throw s!"unknown op {op}"
+def parseTid (s : String) : Except String Tid :=
+  if s == "main" then pure .main
+  else if s == "reader" then pure .reader
+  else if s == "janitor" then pure .janitor
+  else if s.startsWith "hasher" then
+    match (s.drop 6).toString.toNat? with
+    | some (n + 1) => pure (.hasher n)
+    | _ => throw s!"bad thread {s}"
+  else throw s!"bad thread {s}"
+
+def parseKind (s : String) : Except String ItemKind :=
+  match s with
+  | "data" => pure .data | "mismatch" => pure .mismatch | "nodata" => pure .nodata | "exc" => pure .exc
+  | _ => throw s!"bad item kind {s}"
+
+def parseDecision (s : String) : Except String Decision :=
+  match s with
+  | "pass" => pure .pass | "cancel" => pure .cancel | "raise" => pure .raise
+  | _ => throw s!"bad decision {s}"
+
+/-- cfg: {N, cap, items:[kind], readFault: n|null, refuse:[tid], raiseOnBad, cbByDone: [[done, decision], …]} -/
+def parseCfg (j : Json) : Except String Cfg := do
+  let N ← getNat j "N"
+  let cap ← getNat j "cap"
+  let items ← (← getArr j "items").mapM fun x => do parseKind (← x.getStr?)
+  let rf := getOptNat j "readFault"
+  let refuse ← (← getArr j "refuse").mapM fun x => do parseTid (← x.getStr?)
+  let rob ← getBool j "raiseOnBad"
+  let table ← (← getArr j "cbByDone").mapM fun x => do
+    let a ← x.getArr?
+    if h : a.size = 2 then return ((← a[0].getNat?), (← parseDecision (← a[1].getStr?)))
+    else throw "cbByDone entry must be a pair"
+  return { N := N, cap := cap, items := items, readFault := rf, refuse := refuse, raiseOnBad := rob,
+           cb := fun _ done => (table.lookup done).getD .pass }
+
+def tidStr : Tid → String
+  | .main => "main" | .reader => "reader" | .janitor => "janitor" | .hasher i => s!"hasher{i+1}"
+
+def excJson : Exc → Json
+  | .cb d => jobj [("kind", "cb"), ("done", jnat d)]
+  | .item k => jobj [("kind", "item"), ("piece", jnat k)]
+  | .read => jobj [("kind", "read")]
+  | .startRefused t => jobj [("kind", "startRefused"), ("thread", jstr (tidStr t))]
+  | .assertion => jobj [("kind", "assertion")]
+  | .index => jobj [("kind", "index")]
+
+def resultJson : Option Result → Json
+  | none => Json.null
+  | some (.returned c) => jobj [("returned", jnats c)]
+  | some (.raised e) => jobj [("raised", excJson e)]
+
+def runningThreads (cfg : Cfg) (s : State) : List String :=
+  (if s.rpc.running then ["reader"] else []) ++
+  ((List.range cfg.N).filterMap fun i => if hasherRunning s i then some s!"hasher{i+1}" else none) ++
+  (if s.jan.running then ["janitor"] else [])
+
+/-- op `c03.replay`: replay a logged label sequence in the model.
+    trace entries: [thread, op, decision, |pq|, |hq|, fin] (the last three may be null). -/
+def replay (j : Json) : Except String Json := do
+  let cfg ← parseCfg (← j.getObjVal? "cfg")
+  let trace ← getArr j "trace"
+  let mut s := init cfg
+  let mut idx := 0
+  let mut aliveAtReturn : Option (List String) := none
+  for e in trace do
+    let a ← e.getArr?
+    if a.size < 3 then throw "trace entry too short"
+    let tidS ← a[0]!.getStr?
+    let op ← a[1]!.getStr?
+    let dec ← a[2]!.getStr?
+    let tid ← parseTid tidS
+    let expected := opName s tid
+    if expected != op then
+      return jobj [("ok", jbool false), ("at", jnat idx), ("why", jstr "op-mismatch"),
+                   ("modelOp", jstr expected), ("implOp", jstr op), ("thread", jstr tidS)]
+    match step cfg s { tid := tid, timeout := dec == "timeout" } with
+    | none =>
+      return jobj [("ok", jbool false), ("at", jnat idx), ("why", jstr "not-enabled-in-model"),
+                   ("thread", jstr tidS), ("implOp", jstr op), ("decision", jstr dec)]
+    | some s' =>
+      s := s'
+      -- compare the state summary when the shim logged one
+      if a.size ≥ 6 then
+        match a[3]!.getNat?, a[4]!.getNat?, a[5]!.getBool? with
+        | .ok pq, .ok hq, .ok fin =>
+          if pq != s.pq.length || hq != s.hq.length || fin != s.fin then
+            return jobj [("ok", jbool false), ("at", jnat idx), ("why", jstr "state-mismatch"),
+                         ("model", jobj [("pq", jnat s.pq.length), ("hq", jnat s.hq.length), ("fin", jbool s.fin)]),
+                         ("impl", jobj [("pq", jnat pq), ("hq", jnat hq), ("fin", jbool fin)]),
+                         ("thread", jstr tidS), ("implOp", jstr op)]
+        | _, _, _ => pure ()
+      if terminal s && aliveAtReturn.isNone then
+        aliveAtReturn := some (runningThreads cfg s)
+    idx := idx + 1
+  return jobj [("ok", jbool true), ("terminal", jbool (terminal s)),
+               ("result", resultJson (result? s)),
+               ("aliveAtReturn", match aliveAtReturn with | some l => jarr (l.map jstr) | none => Json.null),
+               ("running", jarr ((runningThreads cfg s).map jstr)),
+               ("stop", jbool s.stop), ("seen", jnats s.seen), ("collected", jnats s.collected),
+               ("pushed", jnat ((s.seen.length) + (s.hq.filterMap id).length + (s.pq.filterMap id).length +
+                  (s.hs.filter fun h => match h with | .holding _ => true | _ => false).length))]
+
+def handle (op : String) (j : Json) : Except String Json :=
+  match op with
+  | "c03.replay" => replay j
+  | _ => throw s!"unknown op {op}"
 
 end Driver.C03
